@@ -180,7 +180,8 @@ func init() {
 	l0 := L.Make()
 	l2 := L.MakeFromArray([]any{int64(1), "x", nil})
 	anyPool = []any{nil, int64(0), int64(-3), int64(7), uint64(3), 1.5, -2.25, "", "a", "ab", true, false, 'x', l1, l1b, l0, l2,
-		int64(1 << 40), uint64(0), "b", complex(1, 2)}
+		int64(1 << 40), uint64(0), "b", complex(1, 2),
+		L.MakeFromArray([]any{nil}), L.MakeFromArray([]any{int64(0)}), L.MakeFromArray([]any{int64(1)}), L.MakeFromArray([]any{nil, int64(1)}), L.MakeFromArray([]any{int64(1), nil})}
 	for i := range anyPool {
 		anyPoolClass = append(anyPoolClass, i)
 	}
